@@ -1009,6 +1009,21 @@ func (env *SpecEnv) call(e *Expr) *Value {
 			specFail("locked: no monitor %s.%s", structName(derefType(sv)), args[1].Name)
 		}
 		return scalar(tBool, x.heldTerm(env.cur, m, sv.P.Base))
+	case "ncalls":
+		// ncalls(F): how many times F has been called so far (static calls)
+		n := exprTypeName(args[0])
+		if args[0].Op == "str" {
+			n = args[0].Name
+		}
+		c, ok := x.ncallCells[n]
+		if !ok {
+			specFail("ncalls(%s): not tracked", n)
+		}
+		v, ok := env.cur.cells[c]
+		if !ok {
+			return scalar(tInt, IntLit(0))
+		}
+		return v
 	case "after":
 		// after(F, expr): expr evaluated in the state right after the most recent call of F
 		n := exprTypeName(args[0])
@@ -1407,7 +1422,9 @@ func (x *Exec) ifaceAccessor(recv *Value, m *types.Func, args []*Value) *Value {
 		v := buildValue(rt, func(l Leaf) *Term {
 			return x.ctx.App(fmt.Sprintf("%s$%d$%s", base, k, sanitize(l.Path)), l.Sort, ts...)
 		})
-		x.assumeTypeInv(v, True)
+		if !termsHaveBoundVar(ts) {
+			x.assumeTypeInv(v, True)
+		}
 		x.zeroOffsetsStructural(v)
 		return v
 	}
